@@ -129,4 +129,18 @@ theorem scan_exact (t : VT) (F : List Nat) (L : List (List Nat)) (hes : PARTIAL_
     obtain ⟨e1, e2, e3, _⟩ := slotItem_some t hes j it hj
     rw [e1]; exact ⟨e2, e3⟩
 
+/-- the same from R2's `RepL`: the scan reports the cells of the abstract store `A`, in slot order,
+one item per live chain -/
+theorem scan_exact_rep (t : VT) (A : AStore) (L : List (List Nat))
+    (hes : PARTIAL_SIZE ≤ t.entrySize) (hr : RepL t A L) :
+    ∃ items, t.scan = .ok items ∧ ScanExact t A.tier.free L items ∧
+      items.map Item.cell = (List.range' 1 (t.filled - 1)).filterMap A.cell := by
+  obtain ⟨items, h1, h2⟩ := scan_exact t A.tier.free L hes hr.inv hr.parts
+    (fun c hc => by rw [(hr.heads c hc).1]; exact (hr.heads c hc).2.1)
+  refine ⟨items, h1, h2, ?_⟩
+  rw [h2.cells]
+  congr 1
+  funext i
+  exact hr.cells i
+
 end Pdb.ValueIter
